@@ -7,7 +7,7 @@ tlc(...)              -> run TLC on a module/config, parse its summary and Print
 Evidence              -> writes /verif/evidence/<id>.json
 Findings              -> reads /verif/KNOWN_FINDINGS.txt
 """
-import hashlib, json, os, re, shutil, subprocess, sys, time, glob, random
+import hashlib, json, os, re, shutil, subprocess, sys, time, glob, random, uuid
 
 VERIF = os.path.dirname(os.path.dirname(os.path.abspath(__file__)))
 REPO = os.environ.get("BEE2_REPO", "/repo")
@@ -512,7 +512,7 @@ def validate_lines(ctx, module, rows_or_path, env=None, timeout=1100, cfg=None, 
         with open(path) as f:
             n = sum(1 for l in f if l.strip())
     else:
-        path = ctx.path("lines_%s_%d.ndjson" % (module, len(os.listdir(ctx.work))))
+        path = ctx.path("lines_%s_%d_%s.ndjson" % (module, len(os.listdir(ctx.work)), uuid.uuid4().hex[:6]))
         write_ndjson(path, rows_or_path)
         n = len(rows_or_path)
     if n == 0:
